@@ -172,6 +172,7 @@ __attribute__((noinline, format(printf, 1, 2))) auto fmt(char const* f, ...) -> 
     return buf;
 }
 
+// length of an erase range, biased to "everything", "all but one" and to lengths >= 2
 auto pick(std::uint32_t raw, std::size_t room) -> std::size_t
 {
     switch (raw % 8) {
@@ -179,6 +180,9 @@ auto pick(std::uint32_t raw, std::size_t room) -> std::size_t
     case 1: return room >= 1 ? 1 : 0;
     case 2: return room;
     case 3: return room >= 1 ? room - 1 : 0;
+    case 4: return room >= 2 ? 2 : room;
+    case 5: return room;
+    case 6: return room >= 3 ? 3 : room;
     default: return (raw / 8) % (room + 1);
     }
 }
@@ -1001,7 +1005,7 @@ struct ArgSpace {
 auto concrete_ops(Config const& cfg) -> std::vector<RawOp>
 {
     std::vector<std::uint32_t> const keys{0, 1, 2, 3, 4, 5}, poss{0, 1, 2, 3, 4}, tgt{0, 1}, one{0};
-    std::vector<std::uint32_t> const lens{0, 1, 2, 3, 12, 20, 28};     // pick(): 0, 1, all, all-1, and explicit 1,2,3
+    std::vector<std::uint32_t> const lens{0, 1, 2, 3, 15, 23, 31};     // pick(): 0, 1, all, all-1, and explicit 1,2,3
     std::vector<std::uint32_t> const seqs{0, 8, 23, 129, 373, 1295};   // base-6 digit strings: 0000, 2100, 5300, 3330, 1241, 5555
     std::vector<std::uint32_t> const rlen{0, 1, 2, 3, 4, 6, 7, 8, 9};  // length 0..4 from a random-access source (0..4) / from input iterators (5..9)
     std::vector<std::uint32_t> const tgt_stride{0, 1, 2, 3};           // target x stride {0,1}
